@@ -114,17 +114,20 @@ def wfProcessWorkflowEvent (req : Status) : M Unit := fun c =>
           { c1 with st := { c1.st with status := .failed } }
     else (.ok (), c1)
 
+/-- the with-items context of a task record for a workflow event: has items, some active, some incomplete -/
+def itemFlags (st : WState) (r : Rec) : Bool × Bool × Bool :=
+  match st.getStaged? (r.id, r.route) with
+  | some x => match x.items with
+    | some its => (true, its.any Status.isActive, its.any (fun s => !s.isCompleted))
+    | none => (false, false, false)
+  | none => (false, false, false)
+
 /-- `TaskStateMachine.process_event(state, record, WorkflowExecutionEvent(status))` on record `i` -/
 def tkProcessWorkflowEvent (i : Nat) (req : Status) : M Unit := fun c =>
   match c.st.sequence[i]? with
   | none => (.error .indexError, c)
   | some r =>
-    let (hasItems, act, inc) := match c.st.getStaged? (r.id, r.route) with
-      | some x => match x.items with
-        | some its => (true, its.any Status.isActive, its.any (fun s => !s.isCompleted))
-        | none => (false, false, false)
-      | none => (false, false, false)
-    match tkOnWorkflowEvent (r.status.getD .unset) req hasItems act inc with
+    match tkOnWorkflowEvent (r.status.getD .unset) req (itemFlags c.st r).1 (itemFlags c.st r).2.1 (itemFlags c.st r).2.2 with
     | .raise e => (.error (.machine e), c)
     | .ok s' =>
       -- the status key is written only when a table entry matched; an absent status that stays
